@@ -6,7 +6,7 @@ ID = 'C01'
 
 CHECK = {'title': "Every PWM value written while regulating stays inside the fan's limits",
  'level': 'model_checking',
- 'technique': 'explicit-state BFS over real controller states x environment symbols (replay-based successors), closure for direct algorithms, '
+ 'technique': 'explicit-state BFS over real controller states x environment symbols (snapshot successors, every new state re-reached by replaying its shortest path from scratch), closure for direct algorithms, '
               'depth-bounded for PID',
  'rule': 'per configuration (fan kind x neverStop x limits x PWM map x algorithm) breadth-first search over (controller state, symbol) where a '
          'symbol is (curve value in/outside 0..255, RPM reading, elapsed virtual time) and one transition runs the real measureRpm+UpdateFanSpeed; '
